@@ -358,6 +358,7 @@ func TestVerifC02(t *testing.T) {
 			g := vexec.NewGen(cs.R)
 			g.NoImport = cs.R.Chance(0.5)
 			g.NoDupReinforce = true
+			g.NoChurn = true
 			states := []*vexec.Model{x.M.Clone()}
 			durable := 0
 			prevSize := int64(0) // log size after the previous completed flush
